@@ -87,6 +87,23 @@ func acceptedWorkload(c *fw.Ctx, scale int, emit emitFn) {
 	} {
 		emit("case-variants", singleJob(fmt.Sprintf("case-%d", i), []byte("JSIGHT 0.3\n"+d), false))
 	}
+	// schemas that the converters to OpenAPI cannot represent, in every place of an interaction (and in a TYPE): the export must
+	// return an error value, the catalog must be written
+	for i, ap := range []string{"decimal", "mixed", "enum"} {
+		obj := "{ // {additionalProperties: \"" + ap + "\"}\n    }"
+		for k, d := range []string{
+			"GET /x\n  200\n    " + obj + "\n",
+			"POST /x\n  Request\n    {\n      \"a\": " + obj + "\n    }\n  200 any\n",
+			"GET /x\n  Query \"q=1\"\n    {\n      \"a\": " + obj + "\n    }\n  200 any\n",
+			"GET /fine/{id}\n  200 any\nPUT /x\n  Request\n    {\"ok\": 1}\n  200 any\n  404\n    {\n      \"details\": " + obj + "\n    }\n",
+			"POST /h\n  Request\n    Headers\n      {\n      \"h\": " + obj + "\n      }\n    Body any\n  200\n    Headers\n      {\n      \"g\": " + obj + "\n      }\n    Body any\n",
+			"URL /rpc\n  Protocol json-rpc-2.0\n  Method m\n    Params\n      " + obj + "\n    Result\n      " + obj + "\n",
+			"TYPE @un\n  " + obj + "\nGET /t\n  200 @un\n  201 [@un]\n",
+			"GET /p/{id}\n  Path\n    {\n      \"id\": 1\n    }\n  200\n    [\n      " + obj + "\n    ]\n",
+		} {
+			emit("unconvertible-schemas", singleJob(fmt.Sprintf("unconv-%d-%d", i, k), []byte("JSIGHT 0.3\n"+d), false))
+		}
+	}
 	// targeted generator
 	schemas := []string{
 		`{"id": 1}`, `{"id": "a"}`, `{"id": 1 // {min: 5}` + "\n}", `{"id": "abc" // {minLength: 10}` + "\n}", `{"id": @t}`, `{"id": @undefined}`,
@@ -100,9 +117,10 @@ func acceptedWorkload(c *fw.Ctx, scale int, emit emitFn) {
 		`{"id": "\xff"}`, `{"id\xc3": 1}`, `{"@t": 1}`, `{@t: 1}`, `{"id": 1 /* note */}`, `{"id": 1 // {min: 1} - the id` + "\n}", `"x" // {regex: "^x$"}`, `"x" // {regex: "("}`,
 		`{"x": {} // {or: [{type: "object"}, {type: "array"}]}` + "\n}", `{"x": [] // {or: [{type: "object"}, {type: "array"}]}` + "\n}", `{"x": {} // {or: ["object", "string"]}` + "\n}", `{"x": 1 // {or: [{type: "object"}, {type: "integer"}]}` + "\n}",
 		`[] // {or: [{type: "array", minItems: 0}, {type: "null"}]}`, `{} // {or: [{type: "object"}, "@t"]}`, `{"x": [1] // {or: [{type: "array"}, {type: "integer"}]}` + "\n}", `{"x": {"y": 1} // {or: [{type: "object"}, {type: "integer"}]}` + "\n}",
+		`{ // {additionalProperties: "decimal"}` + "\n}", `{"k": 1 // {additionalProperties: "mixed"}` + "\n}", `{ // {additionalProperties: "enum"}` + "\n}", `{"o": { // {additionalProperties: "decimal"}` + "\n  }\n}", `{@t: 1 // {additionalProperties: "decimal"}` + "\n}",
 		`{"a":1,"a":2}`, `{"q\"k": 1, "b\\s": "v\"q\\ \n \u00e9 /", "uni\u00e9": -0.5, "": 0, "ключ": [[], {}], "e": {}}`, `{"plain key": "text with \"quotes\" and \\ and é", "n": 12345678901234567890, "z": -0}`, `[1 // {min: 2}` + "\n]", `{"id": 12 // {type: "mixed", or: ["@t", {type: "integer"}]}` + "\n}",
 	}
-	regexes := []string{`/(xx|[^\x{0}-\x{10FFFF}]q)/`, `/[^\x00-\x{10FFFF}]/`, `/[^\s\S]/`, `/a{0}/`, `/\b\B/`, `/$a/`, `/abc/`, `/[a-z]+/`, `/(/`, `/[a-z]\x95/`, `//`, `/a{2,1}/`, `/\d+/`, `/(?=a)/`, `/a/ `, `/\//`, `/[/`, "/a\nb/", `/(?P<n>a)/`}
+	regexes := []string{`/([A-Za-z]+|[[:^ascii:]]+)/`, `/(ab|[\x{80}-\x{10FFFF}]c)/`, `/(xx|[^\x{0}-\x{10FFFF}]q)/`, `/[^\x00-\x{10FFFF}]/`, `/[^\s\S]/`, `/a{0}/`, `/\b\B/`, `/$a/`, `/abc/`, `/[a-z]+/`, `/(/`, `/[a-z]\x95/`, `//`, `/a{2,1}/`, `/\d+/`, `/(?=a)/`, `/a/ `, `/\//`, `/[/`, "/a\nb/", `/(?P<n>a)/`}
 	types := []string{"", "TYPE @t\n{\"k\": 1}\n", "TYPE @t\n{\"k\": 1}\nTYPE @u\n{\"m\": \"s\"}\n", "TYPE @t regex\n/ab+/\n", "TYPE @t any\n", "TYPE @t empty\n",
 		"TYPE @t\n1\n", "TYPE @t\n{\"k\": @u}\nTYPE @u\n{\"l\": @t // {optional: true}\n}\n", "TYPE @t\n[1]\n", "TYPE @t\n\"s\" // {enum: @e}\nENUM @e\n[\"s\", \"t\"]\n",
 		"TYPE @t\n{\"k\": 1}\nTYPE @u\n{\"m\": \"s\"}\nTYPE @base\n{\n  \"x\": @t|@u,\n  \"y\": @t  |  @u,\n  \"z\": @u |@t\n}\nTYPE @d\n{ // {allOf: \"@base\"}\n  \"own\": 1\n}\n",
@@ -113,6 +131,9 @@ func acceptedWorkload(c *fw.Ctx, scale int, emit emitFn) {
 		"TYPE @r regex\n/(a|b|[^\\x{0}-\\x{10FFFF}])/\nTYPE @t\n{\"k\": @r}\nTYPE @u\n{\"k\": @r, \"l\": @r}\nTYPE @v\n[@r, @r]\n",
 		// literal keys that look like type names (quoted "@id", "@type" - JSON-LD style) in a type that others inherit from
 		"TYPE @base\n{\n  \"@id\": 1,\n  \"@type\": \"x\",\n  \"plain\": true\n}\nTYPE @d\n{ // {allOf: \"@base\"}\n  \"own\": 1\n}\nTYPE @t\n{\"k\": 1}\nTYPE @u\n{ // {allOf: [\"@d\", \"@t\"]}\n  \"@context\": \"c\"\n}\n",
+		// character classes that match nothing the generator of examples can write, in spellings without "[^"
+		"TYPE @t regex\n/([A-Za-z]+|[[:^ascii:]]+)/\n", "TYPE @t regex\n/([A-Za-z]+|[[:^ascii:]]+)/\nTYPE @u\n{\"k\": @t}\n", "TYPE @t regex\n/(ab|[\\x{80}-\\x{10FFFF}]c)/\nTYPE @u\n{\"k\": @t}\nTYPE @v\n[@t]\n",
+		"TYPE @t regex\n/(x|\\P{Any}y)/\n", "TYPE @t regex\n/(a|b|c|[[:^ascii:]])/\nTYPE @u\n{\"k\": @t, \"l\": @t}\n", "TYPE @t regex\n/([a-c]|[\\x{100}-\\x{10FFFF}])+/\n",
 		// schemas of TYPE directives for which no example can be built
 		"TYPE @t\n[] // {or: [{type: \"integer\"}, {type: \"array\"}]}\n", "TYPE @t\n{\n  \"x\": {} // {or: [{type: \"object\"}, {type: \"string\"}]}\n}\n", "TYPE @u\n{\"m\": 1}\nTYPE @t\n{} // {or: [{type: \"object\"}, \"@u\"]}\n",
 		"ENUM @e\n[\"x\", \"y\"]\n", "ENUM @e\n[]\n", "ENUM @e\n[ # nothing\n]\n", "ENUM @e\n[1, 2 // two\n]\n", "TYPE @t\n{\"k\": 1}\nENUM @e\n[\"x\"]\nTYPE @u\n{\"p\": @t}\n"}
@@ -139,10 +160,18 @@ func acceptedWorkload(c *fw.Ctx, scale int, emit emitFn) {
 			case 6:
 				sb.WriteString("GET /b\xff\n  200 any\nGET /b\xff\xff\n  200 any\nURL /r\n  Protocol json-rpc-2.0\n  Method caf\xe9\n    Result\n      1\n  Method caf\xe8\n    Result\n      2\n")
 			case 0:
+				if r.Intn(2) == 0 { // the same two ids in the other order
+					sb.WriteString("URL \"/x /y\"\n  Protocol json-rpc-2.0\n  Method a\n    Result\n      2\nURL /y\n  Protocol json-rpc-2.0\n  Method \"a /x\"\n    Result\n      1\n")
+					break
+				}
 				sb.WriteString("URL /y\n  Protocol json-rpc-2.0\n  Method \"a /x\"\n    Result\n      1\nURL \"/x /y\"\n  Protocol json-rpc-2.0\n  Method a\n    Result\n      2\n")
 			case 1:
 				sb.WriteString("GET /a\xff\n  200 any\nGET /a\xfe\n  200 any\n")
 			case 2:
+				if r.Intn(2) == 0 {
+					sb.WriteString("URL \"/z /z\"\n  Protocol json-rpc-2.0\n  Method m\n    Result\n      2\nURL /z\n  Protocol json-rpc-2.0\n  Method \"m /z\"\n    Result\n      1\n  Method \"m \"\n    Result\n      3\n")
+					break
+				}
 				sb.WriteString("URL /z\n  Protocol json-rpc-2.0\n  Method \"m /z\"\n    Result\n      1\nURL \"/z /z\"\n  Protocol json-rpc-2.0\n  Method m\n    Result\n      2\n  Method \"m \"\n    Result\n      3\n")
 			default:
 				sb.WriteString("GET \"/p q\"\n  200 any\nPOST \"/p q\"\n  200 any\nGET \"/p  q\"\n  200 any\n")
